@@ -150,6 +150,7 @@ def correspond(ctx):
     objs = sc.puzzle_objects()
     terms = []
     objs_by_sx = {}
+    ast_by_sx = {}
     for ast in LIB_TERMS:
         terms.append((ast, sc.build(ast)))
     for _ in range(ctx.n(400, 3000)):
@@ -168,13 +169,19 @@ def correspond(ctx):
     for ast, obj in terms:
         sx = sc.comb_sx(obj)
         objs_by_sx[sx] = obj
+        ast_by_sx[sx] = ast
         for _ in range(ctx.n(12, 20)):
             h, w = sc.random_dims(rng) if rng.random() < 0.25 else (rng.randint(1, 4), rng.randint(1, 4))
             if max(h, w) > 70 and ast not in LIB_TERMS:
                 # a random term may contain a base that produces items without consuming text (e.g. Grid(.., height=0, ..)):
                 # with a huge declared board both the real decoder and the model then loop ~h*w times
                 h, w = min(h, 70), min(w, 70)
-            if max(h, w) > 70 and ast[0] in ("rooms", "vrooms") and False:
+            # nested Seq/Grid/ValuedRooms multiply the number of items; the Lean model appends lists quadratically, so keep
+            # the number of decoded items of one case bounded (the real decoder is linear)
+            if _items(ast, h, w) > 4000:
+                h, w = min(h, 3), min(w, 3)
+            if _items(ast, h, w) > 4000:
+                ctx.count("skipped:too-many-items")
                 continue
             texts = []
             if h * w <= 900:
@@ -298,6 +305,38 @@ def correspond(ctx):
         ctx.case(sample, ("reencode", repr(sorted(sample.items()))))
         if ro != mo:
             ctx.disagree("model-vs-code:reencode", real=ro[:2000], model=mo[:2000], **{k2: v for k2, v in sample.items() if k2 != "real"})
+    # ---- 4. the property itself on the REAL code (no model involved), for every term inside the scope of the full statement
+    # `statement_reencodable` (Spec `wf`, `single`, `terminating`, evaluated by the model driver) and for every puzzle
+    # codec: whatever a decoder returns must serialize, and the canonical text must decode to the same problem.  The full
+    # re-encodability statement is only partly a theorem, so this oracle runs on every generated case, every run.
+    sxs = sorted(objs_by_sx)
+    scope = {}
+    for sx, mo in zip(sxs, drv.run(["(scope %s)" % sx for sx in sxs])):
+        scope[sx] = (mo == "(ok T T T)")
+    ctx.prop_failures = []
+    for (ast, text, h, w) in CORPUS:
+        ctx.count("oracle:corpus")
+        j = _judge_term(ast, sc.build(ast), text, h, w)
+        if j:
+            ctx.count("oracle:FAIL")
+            ctx.prop_failures.append((j[0], j[1], {"kind": "ast", "ast": ast, "text": text, "h": h, "w": w, "sig": j[0]}))
+            ctx.disagree("property:" + j[0], what=j[1])
+    for (op, fn, fmt, sample), mo in zip(ops, outs):
+        j = None
+        if op == "dep" and scope.get(sample["term"]):
+            ctx.count("oracle:term")
+            j = _judge_term(ast_by_sx[sample["term"]], objs_by_sx[sample["term"]], sample["text"], sample["h"], sample["w"])
+            data = {"kind": "ast", "ast": ast_by_sx[sample["term"]], "text": sample["text"], "h": sample["h"], "w": sample["w"]}
+        elif op == "pde":
+            ctx.count("oracle:url")
+            pz = sample["fn"][len("deserialize_"):]
+            j = _judge_url(objs, pz, sample["url"])
+            data = {"kind": "url", "puzzle": pz, "url": sample["url"]}
+        if j:
+            ctx.count("oracle:FAIL")
+            data["sig"] = j[0]
+            ctx.prop_failures.append((j[0], j[1], data))
+            ctx.disagree("property:" + j[0], what=j[1])
     # regenerated puzzle table (the one the theorems were instantiated on in this build)
     sc.check_puzzle_table(ctx, drv, objs)
 
@@ -330,6 +369,141 @@ def _judge(decode, encode, text):
     return None
 
 
+def _judge_url(objs, p, u):
+    """deserialize_<p>(u) against the property text; returns None if fine else (signature, message)."""
+    import cspuz.problem_serializer as ps
+    mod, comb, ser, de = objs[p]
+    o = sc.run_guarded(lambda: de(u), 20)
+    bad = None
+    if o[0] == "diverge":
+        bad = ("non-termination", "does not terminate")
+    elif o[0] == "err" and o[1] not in ALLOWED_ERR:
+        bad = ("exception:" + o[1], "raises " + o[1])
+    elif o[0] == "ret" and o[1] is not None:
+        v = o[1]
+        m = ps._DESERIALIZE_URL_REG.match(u)
+        hh, ww = int(m[3]), int(m[2])
+        prob = v[2] if isinstance(v, tuple) and len(v) == 3 and v[0] == hh and v[1] == ww and p in ("lits", "norinori", "heyawake") else v
+        e = sc.run_guarded(lambda: ps.serialize_problem_as_url(comb, m[1], hh, ww, prob), 20)
+        if e[0] != "ret":
+            bad = ("not-reencodable", "returns %r, which serialize_problem_as_url cannot encode (%s)" % (v, e[1] if e[0] == "err" else "loops"))
+        else:
+            o2 = sc.run_guarded(lambda: de(e[1]), 20)
+            if o2[0] != "ret" or _typed(o2[1]) != _typed(v):
+                bad = ("reencoding-differs", "returns %r; its canonical URL %r decodes to %r" % (v, e[1], o2[1] if o2[0] == "ret" else o2))
+    if not bad:
+        return None
+    m = ps._DESERIALIZE_URL_REG.match(u)
+    if m is None and bad[0] == "exception:AssertionError":
+        sig = "url:assertion-on-non-matching-url"
+    else:
+        hh = ww = None
+        if m is not None:
+            try:
+                hh, ww = int(m[3]), int(m[2])
+            except ValueError:
+                pass
+        sig = _sig("deserialize_" + p, bad[0], u, hh, ww)
+    return sig, "deserialize_%s(%r) %s" % (p, u, bad[1])
+
+
+def _items(ast, h, w):
+    """upper estimate of the number of leaf items one decode of the term yields on an h x w board"""
+    k = ast[0]
+    if k in ("oneof", "tupl"):
+        return max([1] + [_items(a, h, w) for a in ast[1]]) * (len(ast[1]) if k == "tupl" else 1)
+    if k == "seq":
+        return max(1, ast[2]) * _items(ast[1], h, w)
+    if k == "grid":
+        hh, ww = (h, w) if ast[2] is None else ast[2]
+        return max(1, hh * ww) * _items(ast[1], h, w)
+    if k == "vrooms":
+        return max(1, h * w) * (1 + _items(ast[1], h, w))
+    if k == "rooms":
+        return max(1, h * w)
+    return 1
+
+
+def _skeleton(ast):
+    k = ast[0]
+    if k in ("oneof", "tupl"):
+        return "%s(%s)" % (k, ",".join(_skeleton(a) for a in ast[1]))
+    if k in ("seq", "grid", "vrooms"):
+        return "%s(%s)" % (k, _skeleton(ast[1]))
+    return k
+
+
+def _has_nested_grid(ast, under=False):
+    k = ast[0]
+    if k == "grid":
+        return under or _has_nested_grid(ast[1], True)
+    if k in ("seq", "vrooms"):
+        return _has_nested_grid(ast[1], True)
+    if k in ("oneof", "tupl"):
+        return any(_has_nested_grid(a, under) for a in ast[1])
+    return False
+
+
+def _term_sig(ast, cls, msg):
+    """stable class of a failing library term, by root cause where it can be told"""
+    if cls == "not-reencodable" and "AssertionError" in msg and _has_nested_grid(ast):
+        return "grid:inside-seq-grid-or-valuedrooms-cannot-serialize-what-it-decodes"
+    return "term:" + _skeleton(ast) + ":" + cls
+
+
+def _tupl_drops_items(obj, text, h, w):
+    """Root-cause probe for a failing case: does some `Tupl.serialize` call hand a component to its element and get
+    back fewer consumed items than the component holds (the rest is silently dropped)?"""
+    import cspuz.problem_serializer as ps
+    o = sc.run_guarded(lambda: ps.deserialize_problem(obj, text, height=h, width=w), 20)
+    if o[0] != "ret" or o[1] is None:
+        return False
+    flag = []
+    orig = ps.Tupl.serialize
+
+    def probe(self, env, data, idx):
+        if idx < len(data) and isinstance(data[idx], tuple) and len(data[idx]) == len(self._elements):
+            for el, comp in zip(self._elements, data[idx]):
+                try:
+                    r = el.serialize(env, comp, 0)
+                except Exception:
+                    r = None
+                if r is not None and isinstance(comp, list) and r[0] < len(comp):
+                    flag.append(1)
+        return orig(self, env, data, idx)
+
+    ps.Tupl.serialize = probe
+    try:
+        sc.run_guarded(lambda: ps.serialize_problem(obj, o[1], height=h, width=w), 20)
+    finally:
+        ps.Tupl.serialize = orig
+    return bool(flag)
+
+
+# past failures (minimised), run through the property oracle first on every run
+CORPUS = [
+    # Grid.serialize handed the caller's idx to its inner Seq: a Grid at position >= 1 of a Seq / Grid / ValuedRooms
+    # decoded but did not serialize (AssertionError from serialize_problem)
+    (("seq", ("grid", ("hexint",), (1, 1)), 2), "12", 3, 3),
+    (("grid", ("grid", ("hexint",), (1, 2)), (2, 1)), "1234", 3, 3),
+    (("vrooms", ("grid", ("hexint",), (1, 1)), False, False), "g12", 1, 3),
+    # Tupl serializes a component with ONE call of its element (known finding, see known_findings.json)
+    (("tupl", [("oneof", [("dict", [0], ["."]), ("spaces", 0, "j"), ("hexint",)])]), "r", 3, 3),
+]
+
+
+def _judge_term(ast, obj, text, h, w):
+    import cspuz.problem_serializer as ps
+    j = _judge(lambda t: ps.deserialize_problem(obj, t, height=h, width=w),
+               lambda v: ps.serialize_problem(obj, v, height=h, width=w), text)
+    if not j:
+        return None
+    if j[0] == "reencoding-differs" and _tupl_drops_items(obj, text, h, w):
+        return "tupl:element-serializer-leaves-decoded-items", "deserialize_problem(%s, %r, height=%d, width=%d) %s" % (
+            sc.comb_sx(obj), text, h, w, j[1])
+    return _term_sig(ast, j[0], j[1]), "deserialize_problem(%s, %r, height=%d, width=%d) %s" % (sc.comb_sx(obj), text, h, w, j[1])
+
+
 ROOMS_BASED = ("deserialize_lits", "deserialize_norinori", "deserialize_heyawake")
 
 
@@ -359,6 +533,10 @@ def search(ctx, why):
         if sig not in found:
             data["sig"] = sig
             found[sig] = Finding(sig, what, data)
+
+    # 0. failures of the property oracle seen during the correspondence run are findings as they stand
+    for sig, what, data in getattr(ctx, "prop_failures", []):
+        note(sig, what, dict(data))
 
     def term_case(name, mk, text, h, w):
         obj = mk()
@@ -439,39 +617,9 @@ def search(ctx, why):
                     own.append((p, "https://puzz.link/p?%s/%d/%d/%s" % (p, ww, hh, "".join(tup))))
     pairs = [(u, p) for u in urls for p in sc.PUZZLES] + [(u, p) for (p, u) in own]
     for (u, p) in pairs:
-        if True:
-            mod, comb, ser, de = objs[p]
-            o = sc.run_guarded(lambda: de(u), 20)
-            bad = None
-            if o[0] == "diverge":
-                bad = ("non-termination", "does not terminate")
-            elif o[0] == "err" and o[1] not in ALLOWED_ERR:
-                bad = ("exception:" + o[1], "raises " + o[1])
-            elif o[0] == "ret" and o[1] is not None:
-                v = o[1]
-                m = ps._DESERIALIZE_URL_REG.match(u)
-                hh, ww = int(m[3]), int(m[2])
-                prob = v[2] if isinstance(v, tuple) and len(v) == 3 and v[0] == hh and v[1] == ww and p in ("lits", "norinori", "heyawake") else v
-                e = sc.run_guarded(lambda: ps.serialize_problem_as_url(comb, m[1], hh, ww, prob), 20)
-                if e[0] != "ret":
-                    bad = ("not-reencodable", "returns %r, which serialize_problem_as_url cannot encode (%s)" % (v, e[1] if e[0] == "err" else "loops"))
-                else:
-                    o2 = sc.run_guarded(lambda: de(e[1]), 20)
-                    if o2[0] != "ret" or _typed(o2[1]) != _typed(v):
-                        bad = ("reencoding-differs", "returns %r; its canonical URL %r decodes to %r" % (v, e[1], o2[1] if o2[0] == "ret" else o2))
-            if bad:
-                m = ps._DESERIALIZE_URL_REG.match(u)
-                if m is None and bad[0] == "exception:AssertionError":
-                    sig = "url:assertion-on-non-matching-url"
-                else:
-                    hh = ww = None
-                    if m is not None:
-                        try:
-                            hh, ww = int(m[3]), int(m[2])
-                        except ValueError:
-                            pass
-                    sig = _sig("deserialize_" + p, bad[0], u, hh, ww)
-                note(sig, "deserialize_%s(%r) %s" % (p, u, bad[1]), {"kind": "url", "puzzle": p, "url": u})
+        j = _judge_url(objs, p, u)
+        if j:
+            note(j[0], j[1], {"kind": "url", "puzzle": p, "url": u})
     return list(found.values())
 
 
@@ -485,6 +633,10 @@ def replay(ctx, data):
         obj = eval(data["term"], ns)  # term text produced by search() above
         h, w = data["h"], data["w"]
         j = _judge(lambda t: ps.deserialize_problem(obj, t, height=h, width=w), lambda v: ps.serialize_problem(obj, v, height=h, width=w), data["text"])
+        return Finding(data["sig"], "still fails: " + j[1], data) if j else None
+    if k == "ast":
+        obj = sc.build(data["ast"])
+        j = _judge_term(data["ast"], obj, data["text"], data["h"], data["w"])
         return Finding(data["sig"], "still fails: " + j[1], data) if j else None
     if k == "leaf":
         ns = {n: getattr(ps, n) for n in ("FixStr", "Dict", "Spaces", "DecInt", "HexInt", "IntSpaces", "MultiDigit")}
